@@ -132,7 +132,7 @@ func init() {
 	p13 := profT("K-C13")
 	p13.Compaction = true
 	p13.MaxOps = 30
-	p13.MaxKeys = 6
+	p13.MaxKeys = 16 // many keys, so that some have fewer versions than NumVersionsToKeep
 	p13.WDel = 3
 	p13.WIter = 6
 	p13.Discard = true
@@ -142,6 +142,10 @@ func init() {
 	register(&Scenario{Prop: "C13", Family: "K", Level: "exploration", Profile: p13, NonTrivialProbe: "compaction_done",
 		Gen: func(t *rapid.T) *Case {
 			c := GenCase(t, p13)
+			// retention counting matters for NumVersionsToKeep 2 and 3, and across the
+			// boundaries of output tables: small tables so that compactions write several
+			c.Cfg.NumVersionsToKeep = rapid.SampledFrom([]int{2, 2, 3, 3, 1, 1 << 30}).Draw(t, "versions_to_keep13")
+			c.Cfg.BaseTableSize = int64(rapid.SampledFrom([]int{512, 512, 1 << 10, 2 << 10}).Draw(t, "base_table_size13"))
 			for ci := range c.Clients {
 				for oi := range c.Clients[ci] {
 					if it := c.Clients[ci][oi].It; it != nil && oi%2 == 0 {
@@ -529,10 +533,21 @@ func init() {
 			c := GenCase(t, p16)
 			c.Cfg.Prefill = rapid.SampledFrom([]int{0, 20, 50}).Draw(t, "prefill16")
 			c.Cfg.MemTableSize = 64 << 10 // keep everything in the first WAL
+			if rapid.IntRange(0, 3).Draw(t, "c16_big_keys") == 0 {
+				// keys at and just below the maximum key size (65000 bytes): the record's
+				// key length field then counts the 8-byte timestamp on top
+				c.Cfg.MemTableSize = 1 << 20
+				c.Cfg.Prefill = 0
+				for i, n := range []int{65000, 64993, 64992, 65000 - 8} {
+					if i < len(c.Keys) {
+						c.Keys[i] = HexBytes(longKey(byte('p'+i), n))
+					}
+				}
+			}
 			return c
 		},
 		Run:  func(t *testing.T, c *Case, keep bool) Outcome { return ExecuteLogs(t, c, p16, keep) },
-		Rule: "short histories (transactions and write batches, values on both sides of the value threshold, user meta, TTL, discard flag, deletes; plain and with 16/24/32-byte encryption keys) produce a WAL and value-log files; the directory is imaged before Close and (a) every .mem and .vlog file is iterated with the production logFile.iterate: every delivered record must equal the write of the model at that key+version (value bytes, directly or through its value pointer into the value-log image, user meta, expiry, delete/discard bits), transactions are delivered complete and in commit order; (b) one byte is flipped at EVERY position of the last 160 bytes of every log: no record that differs from a written one may be delivered and the delivered records must be a prefix of the intact delivery. evaluations = histories; non-trivial = history with >=2 verified records",
+		Rule: "short histories (transactions and write batches, values on both sides of the value threshold, user meta, TTL, discard flag, deletes; plain and with 16/24/32-byte encryption keys; one case in four with keys of 64992-65000 bytes, the maximum key size) produce a WAL and value-log files; the directory is imaged before Close and (a) every .mem and .vlog file is iterated with the production logFile.iterate: every delivered record must equal the write of the model at that key+version (value bytes, directly or through its value pointer into the value-log image, user meta, expiry, delete/discard bits), transactions are delivered complete and in commit order; (b) one byte is flipped at EVERY position of the last 160 bytes of every log: no record that differs from a written one may be delivered and the delivered records must be a prefix of the intact delivery. evaluations = histories; non-trivial = history with >=2 verified records",
 		Real: []string{"memtable.go logFile (encodeEntry/iterate/decrypt), value.go write path, key registry (real code)"}, Stubs: stubsCommon,
 	})
 	// C35 directory locks
